@@ -632,6 +632,9 @@ func (a *asset) getRefSegMeta(nrOrTime int, cfg *ResponseConfig, nowMS int) (ref
 	switch cfg.liveMPDType() {
 	case segmentNumber, timeLineNumber:
 		nr := uint32(nrOrTime)
+		if nrOrTime < 0 || nr < uint32(cfg.getStartNr()) {
+			return ref, errNotFound
+		}
 		ref, err = findSegMetaFromNr(a, a.refRep, nr, cfg, nowMS)
 	case timeLineTime:
 		videoTime := uint64(nrOrTime * a.refRep.MediaTimescale / SUBS_TIME_TIMESCALE)
